@@ -528,6 +528,14 @@ pub fn finish(ctx: &Ctx, mut res: RunResult, report: Report) -> i32 {
     if !real.is_empty() {
         for (v, p) in real.iter().zip(replay_paths.iter()) {
             println!("  refuted: {}", v.what);
+            if let Some(m) = v.case.get("minimized") {
+                println!(
+                    "  minimized witness: patterns {} input {} -> {}",
+                    m.get("patterns").map(|x| x.to_string()).unwrap_or_default(),
+                    m.get("input").map(|x| x.to_string()).unwrap_or_default(),
+                    m.get("what").and_then(|x| x.as_str()).unwrap_or("")
+                );
+            }
             println!("VIOLATION property={} replay={}", ctx.prop, p);
         }
         return 1;
